@@ -17,7 +17,8 @@ CONSTANTS
    EarlyPairClasses,\* value classes used in pairs at the instants around the stream start
    EarlyTails,      \* tail shapes used at the instants around the stream start
    TripleClasses,   \* value classes used in the selected triples
-   TripleTails      \* tail shapes used with the selected triples
+   TripleTails,     \* tail shapes used with the selected triples
+   SeqMethods       \* upload methods used for the receiver sequences
 
 VARIABLE r
 
@@ -150,9 +151,19 @@ RcvReqs ==
    \/ \E m \in {"PUT", "GET"}, t \in {"seg", "streams", "mpd", "badext"}, c \in {"cl_ok", "cl_none", "cl_huge"}, b \in RcvBodies :
          r = Req("rcvraw", "rcv", m, <<>>, "none", t, c, b)
 
+\* --- receiver upload SEQUENCES on one channel: a malformed / refused init segment followed by well-formed media of the
+\*     same and of other tracks, before and after the channel start, on shifted and unshifted channels
+BadInits == {"init_valid", "moov_empty", "moov_junk", "ftyp_only", "init_truncated", "no_stsd", "no_stbl", "no_minf", "no_mdia",
+             "no_mdhd", "no_hdlr", "no_tkhd", "no_trak", "no_mvhd", "no_mvex", "no_trex", "zero_mdhd_ts", "zero_mvhd_ts",
+             "stsd_empty"}
+SeqShapes == {"bad_media", "vinit_bad_vmedia", "started_bad_media", "bad_good_media", "badvideo_other"}
+RcvSeqReqs ==
+   \E m \in SeqMethods, t \in SeqShapes, k \in {"shifted", "unshifted"}, b \in BadInits :
+      r = Req("rcv", "rcvseq", m, <<>>, "none", t, k, b)
+
 WithCtx(q) == q @@ [ctx |-> CtxOf(q.ep, q.tail, q.parts)]
 
-Init == LiveSingle \/ LivePairs \/ LiveLL \/ LiveEarly \/ LiveTriple \/ LiveBare \/ PatchReqs \/ UrlgenReqs \/ MiscReqs \/ LaurlReqs \/ ApiReqs \/ RcvReqs
+Init == LiveSingle \/ LivePairs \/ LiveLL \/ LiveEarly \/ LiveTriple \/ LiveBare \/ PatchReqs \/ UrlgenReqs \/ MiscReqs \/ LaurlReqs \/ ApiReqs \/ RcvReqs \/ RcvSeqReqs
 Next == UNCHANGED r
 Spec == Init /\ [][Next]_r
 
